@@ -19,7 +19,9 @@ CHECKS = {
         "cells per operator and sign class) are translated by the real library, the UNMODIFIED uisupport header is compiled with g++ and "
         "every eval function is called in 24 states; values are compared exactly (bit-identical doubles, UTF-16 code units). A binding "
         "for which no code is generated must denote the same value in every state. List element assignment, an object id equal to a "
-        "property name and a table of spelled string literals are part of the workload.",
+        "property name, a table of spelled string literals, gadget member bindings, fall-through switches with clause-level lets and a "
+        "regeneration scenario (a sibling component changes its class: the header on disk must be the code of the current inputs) are "
+        "part of the workload.",
         "Trusted: reference interpreter qv/gen_expr.py (documented semantics; overflow, uint wrap, NaN, null dereference, bad subscript = "
         "undefined and never executed), API model cxx/qtmodel_rt.h + qv/cxxmodel.py, mini-uic.",
         "DESIGN.md §4 C01",
@@ -31,7 +33,9 @@ CHECKS = {
         "After setup() and after each of 30-60 accepted steps all bound targets are dumped and compared with the reference fix point of "
         "the binding network; the IR monitor checks that every non-constant pointer property read is covered by a static dependency or a "
         "preceding observe statement; bindings reading a notify-less (or bindable-only) property must be rejected; a binding "
-        "without update code whose reference value differs between two states is a violation.",
+        "without update code whose reference value differs between two states is a violation. Gadget member bindings are targets of "
+        "the networks; regeneration scenarios (only a binding expression or a handler edited, .ui byte-identical) compare the header on "
+        "disk with a generation into an empty directory.",
         "Only quiescent states are judged (no UBSan arithmetic checks here: transient mixes of old and new values may be undefined). "
         "Model setters never clamp; object deletion is not modelled.",
         "DESIGN.md §4 C02",
@@ -67,7 +71,9 @@ CHECKS = {
         "exploration",
         "Every catalogue entry (operand types, conditions, unsupported syntax, assignments, arguments, callback parameters, result type) "
         "is tried with constant and property-reading operands and must be rejected; generated well-typed programs (dynamic and constant "
-        "profile, callbacks) must be accepted, their mutants rejected; every accepted body is re-typed by an independent rule table.",
+        "profile, callbacks) must be accepted, their mutants rejected; every accepted body is re-typed by an independent rule table. "
+        "Rows cover classes with unresolvable / protected bases, inherited properties typed in the declaring class's scope, branch-scoped "
+        "declarations, void values and untyped literals in every position (arguments, list elements, returns in the middle).",
         "Only edits that are unambiguously ill-typed by docs/language.md are generated.",
         "DESIGN.md §4 C05",
     ),
@@ -77,7 +83,8 @@ CHECKS = {
         "exploration",
         "Value programs and callback bodies with arbitrary nestings of ternary, &&, ||, if/else, switch, break, early return, dead "
         "code and trailing declarations; jump targets, reachable unreachable-markers, mixed void/value returns, reads of locals not "
-        "assigned on every path; Q_UNREACHABLE events and uninitialised reads at run time on defined cases.",
+        "assigned on every path; Q_UNREACHABLE events and uninitialised reads at run time on defined cases; gadget member bindings "
+        "and void-bodied bindings on QVariant properties (rejected, or a value on every path).",
         "Definite assignment is judged for every local because the generators give every declaration an initialiser.",
         "DESIGN.md §4 C06",
     ),
@@ -87,7 +94,9 @@ CHECKS = {
         "exploration",
         "Each document is translated 24-60 times; .ui, compact .ui, header hashes and the diagnostic set must be identical; the hook "
         "reports the order in which the real HashMaps were iterated, so the evidence shows that iteration orders really differed; the "
-        "CLI is run three times per document and must not touch unchanged outputs.",
+        "CLI is run three times per document and must not touch unchanged outputs; multi-source invocations are repeated in fresh "
+        "processes, their diagnostics must equal the union of each source translated alone, and a revision generated over the outputs "
+        "of another must equal the same revision generated into an empty directory.",
         "A run in which no document showed two visit orders is inconclusive.",
         "DESIGN.md §4 C08",
     ),
@@ -97,7 +106,8 @@ CHECKS = {
         "exploration",
         "Hundreds to thousands of generated documents carry markup, quotes, blanks, line breaks, CR, non-ASCII and astral strings in every "
         "string-bearing position; both serialisations (pretty, compact) are parsed with expat, checked against a transcribed ui4 grammar "
-        "subset and every string/class/name is read back and compared with the generator's value.",
+        "subset and every string/class/name is read back and compared with the generator's value; a table of spelled literals "
+        "(continuations, identity and surrogate escapes) and multi-source CLI re-runs are included.",
         "Trusted: expat, the grammar table in qv/uiparse.py, the generator's own record of the strings it printed. Strings with characters "
         "XML 1.0 cannot carry are only required to yield a well-formed file or a rejection.",
         "DESIGN.md §4 C09",
@@ -109,7 +119,8 @@ CHECKS = {
         "Ids and custom component names are drawn from the space of generated-looking names (label1, Label1, widget2...); the monitor "
         "checks pairwise distinct names, ids used verbatim, generated names derived from the class and distinct from ids, every "
         "addaction / object-valued property / ui_-> access resolving to one declared object of a compatible kind, and that duplicated "
-        "ids and references to incompatible objects are rejected.",
+        "ids and references to incompatible objects are rejected; collision clusters (class, components <Stem><digits>, generated-looking "
+        "ids), the reserved word 'separator' and callback function names are part of the name space.",
         "Class compatibility of ui_-><name> accesses in the header is decided by compiling it (C16).",
         "DESIGN.md §4 C10",
     ),
@@ -118,7 +129,8 @@ CHECKS = {
         "exploration",
         "Trees of depth <= 7 over widgets, four layout classes, spacers, actions, separators, menus, tab widgets and main windows; "
         "each object must appear once, as the right element kind, under its parent (through <item> in layouts), in source order, "
-        "with the right class; addaction sequences are compared with declaration order / the explicit actions list.",
+        "with the right class; addaction sequences are compared with declaration order / the explicit actions list; a sixth of the "
+        "documents decorate children with annotations / comments (rejected, or every object present).",
         "The generator's tree is the reference; rejected documents are not judged here.",
         "DESIGN.md §4 C11",
     ),
@@ -127,7 +139,8 @@ CHECKS = {
         "exploration",
         "Layouts with 1-14 children and random optional row/column/span/alignment/stretch/minimum-size attachments in both flows and all "
         "column/row counts; a 40-line reference of the flow rule predicts every cell and every specified array entry; a sixth of the cases "
-        "carries one invalid or conflicting value and must be rejected.",
+        "carries one invalid or conflicting value (negative, >= count, around 2^31 / 2^32 / 2^53, conflicting per-row values, a "
+        "duplicated attachment) and must be rejected; spans of -1, all-0 / all-1 stretch modes and mixed attached-type spellings are covered.",
         "Reference model written from the property text; cursor semantics of a lone row/column as pinned by the repository's unit tests. "
         "Unspecified array entries are not judged.",
         "DESIGN.md §4 C12",
@@ -141,7 +154,8 @@ CHECKS = {
         "arguments; each defined (state, arguments) tuple is emitted and its effect trace compared in content and order; handlers on true "
         "overloads, non-signals or with incompatible parameters must be rejected. Also: handlers whose parameters are value classes "
         "(QFont) and are modified / copied / re-assigned; handlers on anonymous objects next to look-alike classes, clicked by tree "
-        "position; a variable re-declared in a case clause and read after the switch.",
+        "position; a variable re-declared in a case clause and read after the switch; handler-only edits generated over the previous "
+        "outputs through the CLI (header on disk == header of the current source).",
         "At most one side-effecting call per statement; order between a call's receiver and arguments is not judged.",
         "DESIGN.md §4 C13",
     ),
@@ -150,7 +164,9 @@ CHECKS = {
         "by the real library; relational monitor across the three results",
         "exploration",
         "Checks .ui byte equality across modes, reject-acceptance <=> generate-acceptance with an empty header, omit errors being a subset "
-        "of generate errors, and header presence in generate mode only.",
+        "of generate errors, and header presence in generate mode only; 18 documents bind dynamic expressions to constant-only targets; "
+        "on disk, a tree generated with --no-dynamic-binding and then in generate mode must hold the header of a generation into an "
+        "empty tree and the same .ui bytes.",
         "Header emptiness is read from the emitted header text (BindingIndex enumerators, on* functions, setup body).",
         "DESIGN.md §4 C14",
     ),
@@ -170,10 +186,12 @@ CHECKS = {
         RM + "the real CLI under strace: syscall-level observation of every file-mutating call, tree snapshots (inode, mtime, mode, "
         "sha256) around every run, and fault enumeration by strace injection (SIGKILL at, or errno from, each file-mutating syscall)",
         "fault_enumeration",
-        "Path shapes (plain, ./, dir/../dir, absolute, parent-escaping, several sources; nested, spaced, non-ASCII names) x options "
+        "Path shapes (plain, ./, dir/../dir, absolute, parent-escaping in five spellings, several sources, a source that is a symbolic "
+        "link to a file with another stem; nested, spaced, non-ASCII names) x options "
         "(-O, --no-dynamic-binding, --no-lowercase-file-name): the set of new files must be exactly the expected one, every mutating "
         "syscall must name an expected output, a .tmp sibling or a created parent; escaping sources must be refused with nothing written; "
-        "re-runs must keep inode+mtime; edit/regenerate histories; then for a regeneration over existing old outputs one run per "
+        "re-runs must keep inode+mtime; edit/regenerate histories of 14 step kinds (after each step the outputs equal a fresh generation "
+        "of the current inputs); then for a regeneration over existing old outputs and for a first generation one run per "
         "file-mutating syscall with SIGKILL injected at its entry (every crash point the syscall trace distinguishes) and errno "
         "injections: every output path must hold its complete old or complete new bytes.",
         "Crash points are enumerated at syscall granularity for the traced schedule (the CLI is single-threaded); power-loss durability "
@@ -199,7 +217,7 @@ CHECKS = {
         "enum and variant lookups and common_base_class are queried for all subject pairs and pool names and compared with a BFS over the "
         "JSON description; every query must finish within a CPU budget. Members carry types (some unresolvable); a quarter of the graphs "
         "span several modules with same-named distinct classes and modules imported twice, and every name is resolved through the import "
-        "list and through a pushed import stack (the two must agree).",
+        "list and through a pushed import stack (the two must agree); the descriptions reach a module in 1, 2, 3 or n extend() batches.",
         "Termination is restated as bounded progress (10 s CPU per job; observed maximum well below 1 ms per query).",
         "DESIGN.md §4 C17",
     ),
@@ -211,7 +229,9 @@ CHECKS = {
         "imports in six spellings (./, trailing /, dir/../dir detours, ../ climbs), mutually importing directories, mutually and self "
         "inheriting components; documents instantiate components interleaved (X, Y, X), nested and as root, with base-class properties. "
         "Judged: every instantiated type listed exactly once with class / extends (= root type of its file) / header per file-name rule, "
-        "base-class property values on the instances, identical bytes for a source across all invocations, exit 0/1 within a CPU budget.",
+        "base-class property values on the instances, identical bytes for a source across all invocations, exit 0/1 within a CPU budget. "
+        "Same-named components in different directories (precedence settled by qmluic's own answer for the component file), non-ASCII "
+        "component names and component files that are symbolic links into a store that is not imported are part of the projects.",
         "The CLI stops at the first failing source; outputs a failing invocation did not reach are not counted as order dependence. "
         "Bases of instantiated components may be listed too.",
         "DESIGN.md §4 C18",
@@ -222,15 +242,16 @@ CHECKS = {
         "exploration",
         "Every 3- and 4-digit hex colour and every SVG keyword (5 letter cases) is decoded by the real parser and compared "
         "with an independently written decoder and an independently sourced keyword table; 6-/8-digit colours and "
-        "non-colour strings (incl. white-space padded colours) are sampled; hundreds go end to end through <color>/<brush>/<palette> "
-        "elements of the .ui.",
+        "non-colour strings (incl. white-space padded and quote-wrapped colours) are sampled; hundreds go end to end through "
+        "<color>/<brush>/<palette> elements of the .ui, with escaped spellings, both string delimiters and, in every third document, a "
+        "warning next to the possible error.",
         "Trusted: the reference decoder (30 lines, from the property text) and qv/svgcolors.py. 6-/8-digit and junk strings are sampled, not exhausted.",
         "DESIGN.md §4 C19",
     ),
     "C20": (
         RM + "pairs (document, same document with one planted fault) translated in omit mode by the real library; masked tree-diff monitor",
         "exploration",
-        "One fault of ten kinds is planted at a random object of an accepted document (some with custom components on disk); in omit mode "
+        "One fault of a dozen kinds (incl. ill-typed pseudo properties, faults on separators and on layout children followed by auto-flow siblings) is planted at a random object of an accepted document (some with custom components on disk); in omit mode "
         "the faulted document must still yield a form and an error, the form must equal the reference form outside the faulty object "
         "(which may only lose its own values), and for unknown/invalid types exactly that subtree must be absent.",
         "Masked as the object's own values: its property/attribute/item/addaction children, its wrapping <item> attributes and its parent "
